@@ -147,9 +147,12 @@ var coreKinds = []string{"json", "nop", "level-above-fatal", "sampler-drops-all"
 	"tee-member-switched-on-after-child-derived",
 	// one core over Lock(multi(a sink whose Sync always fails the way a terminal's does, a buffered
 	// sink)), which has already handled an earlier terminal entry: the final entry must be flushed too
-	"multi(unsyncable-sink,buffered-sink)-after-an-earlier-terminal-entry"}
+	"multi(unsyncable-sink,buffered-sink)-after-an-earlier-terminal-entry",
+	// a buffered sink that was used and then stopped (a deferred Stop during shutdown) before the final
+	// entry arrives: writes after Stop are still accepted, so the final entry must reach the sink too
+	"buffered-sink-already-stopped"}
 
-var inProcessOnly = map[string]bool{"tee-member-switched-on-after-child-derived": true, "multi(unsyncable-sink,buffered-sink)-after-an-earlier-terminal-entry": true}
+var inProcessOnly = map[string]bool{"tee-member-switched-on-after-child-derived": true, "multi(unsyncable-sink,buffered-sink)-after-an-earlier-terminal-entry": true, "buffered-sink-already-stopped": true}
 
 // intruderHook is the hook of a derived logger; it returns, so if the parent ran it the parent's call
 // would come back as if nothing terminal had happened.
@@ -248,6 +251,14 @@ func buildCore(kind string, ws func(*rec.Sink) zapcore.WriteSyncer) built {
 		}()
 		return built{core: zapcore.NewCore(zapcore.NewJSONEncoder(cfg), locked, zapcore.DebugLevel), sinks: []*rec.Sink{s}, enabled: true, contended: true,
 			stop: func() { stopFlag.Store(true); <-done }}
+	case "buffered-sink-already-stopped":
+		b := &zapcore.BufferedWriteSyncer{WS: ws(s), Size: 4096, FlushInterval: time.Hour}
+		return built{core: zapcore.NewCore(zapcore.NewJSONEncoder(cfg), b, zapcore.DebugLevel), sinks: []*rec.Sink{s}, enabled: true, buffered: b,
+			derive: func(l *zap.Logger) *zap.Logger {
+				l.Info("an ordinary entry before the syncer is stopped")
+				_ = b.Stop()
+				return l
+			}}
 	case "buffered-sink":
 		b := &zapcore.BufferedWriteSyncer{WS: ws(s), Size: 4096, FlushInterval: time.Hour}
 		return built{core: zapcore.NewCore(zapcore.NewJSONEncoder(cfg), b, zapcore.DebugLevel), sinks: []*rec.Sink{s}, enabled: true, buffered: b}
